@@ -278,9 +278,34 @@ func (h *c14H) render(out string) string {
 		al = append(al, strconv.Itoa(h.actorOf(a)))
 	}
 	P := fmt.Sprintf("%d:%s:%s", int64(pr.MinLockDuration), pr.LockCreationFee.String(), c14Join(al, ","))
-	return fmt.Sprintf("%s L=%s last=%d M=%s B=%s Q=%s A=%s S=%s W=%s O=%s U=%s t=%d h=%d P=%s", out, c14Join(L, ","), last, c14Join(M, ","),
+	// two walks of the lock-reference indexes: GetPeriodLocks in the order it returns (= the order of the
+	// exported genesis: not-unlocking by (duration, id), then unlocking), and the EndBlocker's own
+	// iterator over the end-time references (ids, sorted)
+	var G, I []string
+	if all, err := h.k.GetPeriodLocks(ctx); err == nil {
+		for _, pl := range all {
+			G = append(G, strconv.FormatUint(pl.ID, 10))
+		}
+	}
+	for _, id := range h.maturedByIterator(ctx) {
+		I = append(I, strconv.FormatUint(id, 10))
+	}
+	return fmt.Sprintf("%s L=%s last=%d M=%s B=%s Q=%s A=%s S=%s W=%s O=%s U=%s t=%d h=%d P=%s G=%s I=%s", out, c14Join(L, ","), last, c14Join(M, ","),
 		c14Join(B, ";"), c14Join(Q, ";"), c14Join(A, ";"), c14Join(S, ","), c14Join(W, ";"), c14Join(O, ";"), c14Join(U, "."),
-		int64(h.f.Time.Sub(BaseTime)), h.f.Height, P)
+		int64(h.f.Time.Sub(BaseTime)), h.f.Height, P, c14Join(G, "."), c14Join(I, "."))
+}
+
+// maturedByIterator walks LockIteratorBeforeTime(block time) — the iterator WithdrawAllMaturedLocks uses —
+// and returns the referenced lock ids, ascending.
+func (h *c14H) maturedByIterator(ctx sdk.Context) []uint64 {
+	it := h.k.LockIteratorBeforeTime(ctx, h.f.Time)
+	defer it.Close()
+	ids := []uint64{}
+	for ; it.Valid(); it.Next() {
+		ids = append(ids, sdk.BigEndianToUint64(it.Value()))
+	}
+	sort.Slice(ids, func(i, j int) bool { return ids[i] < ids[j] })
+	return ids
 }
 
 // readParams re-observes the lockup parameters in force (after a restart the module has written its
@@ -693,6 +718,19 @@ func (h *c14H) monitor(op c14Op, pre, post c14Snap, err error) {
 		}
 		if fmt.Sprint(ids) != fmt.Sprint(want) {
 			h.viol("C14/index/by-account-query-differs", fmt.Sprintf("actor %d: GetAccountPeriodLocks %v, stored %v", a, ids, want))
+		}
+	}
+	// --- the end-time references (rebuilt by addLockRefs at begin-unlock and at import) name exactly the
+	//     unlocking locks whose end time has come
+	{
+		want := []uint64{}
+		for _, id := range post.ids {
+			if l := post.locks[id]; l.unl && l.end <= post.now {
+				want = append(want, id)
+			}
+		}
+		if got := h.maturedByIterator(ctx); fmt.Sprint(got) != fmt.Sprint(want) {
+			h.viol("C14/index/matured-iterator-differs", fmt.Sprintf("LockIteratorBeforeTime %v, stored %v", got, want))
 		}
 	}
 	// --- ids are never reused
@@ -1438,6 +1476,26 @@ func (g *c14Gen) trace(n int) {
 	h.finishTrace()
 }
 
+// c14Fixed: directed histories run first on every seed (whatever the random generator then picks):
+//  1. two locks of two owners sharing denom AND duration -> restart (the per-(denom, duration) entry of
+//     InitializeAllLocks has to hold their sum) -> top-up, extend, begin-unlock, maturity on the imported chain;
+//  2. a full and a partial begin-unlock, half the period elapses, restart while unlocking, a second
+//     restart, then both mature at their old end times;
+//  3. params mid-history: an allow-listed owner force-unlocks, is taken off the list (refused), the
+//     minimum is raised above an existing lock (top-up refused, begin-unlock accepted, paid out), then a
+//     restart: default params (nobody may force-unlock, minimum 0, fee 5*10^16).
+const c14FixedProbes = "0,1,2,6,10,11,20,21,1000000000,86400000000000"
+
+var c14Fixed = [][]string{
+	{"reset 5 1000 - 3 1 0 " + c14FixedProbes, "fund 0 0 106000", "fund 1 0 106000", "lock 0 0 309 6", "lock 1 0 661 6", "restart",
+		"end", "setparams 5 1000 -", "lock 0 0 11 6", "extend 1 2 20", "unlock 0 1 -", "end", "begin 1", "end", "begin 1", "end", "begin 1", "end", "begin 1", "end", "begin 1", "end", "begin 6", "end"},
+	{"reset 0 7 - 2 2 0 " + c14FixedProbes, "fund 0 0 100000", "fund 1 0 1000", "fund 0 1 5000", "fund 1 1 5000", "lock 0 1 1000 20", "lock 1 1 500 20", "lock 0 0 300 10",
+		"unlock 0 1 1 400", "unlock 1 2 -", "end", "begin 10", "restart", "end", "begin 1", "restart", "setparams 0 7 -", "lock 0 1 50 20", "end", "begin 1", "end", "begin 1", "end", "begin 1", "end", "begin 7", "end"},
+	{"reset 5 7 1 2 1 0 " + c14FixedProbes, "fund 0 0 200000000000000000", "fund 1 0 100000", "lock 1 0 1000 10", "lock 0 0 2000 10", "force 1 1 0 100",
+		"setparams 5 7 -", "force 1 1 -", "setparams 100 7 0", "lock 1 0 5 10", "unlock 1 1 -", "force 0 2 0 500", "end", "begin 1", "end", "begin 1", "end", "begin 1", "end", "begin 1", "end", "begin 1", "end", "begin 10", "end",
+		"restart", "force 0 2 -", "lock 0 0 100 4", "unlock 0 2 0 700", "end", "begin 10", "end"},
+}
+
 func TestC14(t *testing.T) {
 	r := NewRun(t, "C14")
 	defer r.Close()
@@ -1451,6 +1509,13 @@ func TestC14(t *testing.T) {
 		}
 		h.finishTrace()
 		return
+	}
+	for _, tr := range c14Fixed {
+		for _, l := range tr {
+			r.Emit(l, h.exec(l))
+		}
+		r.Hit("fixed/directed-trace")
+		h.finishTrace()
 	}
 	nTraces := r.N(300, 3600)
 	for i := 0; i < nTraces; i++ {
